@@ -6,9 +6,10 @@
     Model/Date.v, Model/Time.v and Model/DateTime.v.  No proofs in this file. *)
 From Coq Require Import ZArith List Bool String.
 From V Require Import Base.Int Base.IO Model.TimeDelta Model.DateTime.
+From V Require Model.Date Model.Time.
 Import ListNotations.
 Open Scope Z_scope.
-(* [D] = Model/Date.v and [T] = Model/Time.v, the qualified names introduced by Model/DateTime.v *)
+(* [Date.x] = Model/Date.v, [Time.x] = Model/Time.v (partially qualified names) *)
 
 (** * Operator forms: [expect] of the checked forms *)
 (* impl Add<TimeDelta> for NaiveDate / impl Sub<TimeDelta> for NaiveDate *)
@@ -183,6 +184,12 @@ Definition run (op : bytes) (args : list val) : val :=
   else if op_is op "ar.opndays" then
     a3 dec_ndt arg_sign arg_u64 args (fun a sg n =>
       val_of_R enc_ndt (if sg then op_nadd_days a n else op_nsub_days a n))
+  else if op_is op "ar.nrt" then
+    a2 dec_ndt dec_ndt args (fun a b =>
+      val_of_R vo_ndt (let* d := ndt_signed_duration_since a b in ndt_checked_add_signed b d))
+  else if op_is op "ar.nord" then
+    a2 dec_ndt dec_ndt args (fun a b =>
+      val_of_R (fun d => VTup [VInt (ndt_cmp a b); VInt (td_cmp d (mk_td 0 0))]) (ndt_signed_duration_since a b))
   else if op_is op "ar.addstd" then
     a_std dec_ndt args (fun a sg s n => val_of_R enc_ndt (if sg then op_nadd_std a s n else op_nsub_std a s n))
   (* NaiveDate *)
